@@ -1,179 +1,121 @@
-import JaqalProofs.Lemmas.BuilderNames
+import JaqalProofs.Lemmas.BuilderTotal
 /-!
-# C16 (builder part) — the builder fails with JaqalError (or ImportError from a `usepulses` load) only
+# C16 (builder part) — on parser-produced input the builder fails with JaqalError (or the ImportError of a
+`usepulses` load) and with nothing else: no `TypeError` / `ValueError` / `AttributeError` / `KeyError` / `IndexError`,
+no non-termination
 
-Status: STATED, NOT PROVED. This file fixes the statement (`C16_builder_total_full`, with the exact shape predicate
-`ParserSx` of what `parse_to_sexpression` returns), proves the unconditional leaf facts, and records the one input
-shape on which the statement is still false for the model.
+Model: `JaqalModel/Model/Builder.lean`. `Good err` = `err` is `Err.jaqal _` or `Err.importErr`; in particular it is no
+`Err.other _` (which also covers the model's own `Unmodelled…` answers) and not `Err.hang`.
 
-## The residual case (`C16_residual_parameter_index`)
-`register r[2]; macro m p { g p[r] }` — a register (or a single-qubit alias, `p[q]`) used as the index of a macro
-PARAMETER. `NamedQubit.__init__` checks the index only in its "known" branch; when the source is a `Parameter` the
-branch for annotated values is taken and an index that is neither a number nor an annotated value passes unchecked.
-The real builder ACCEPTS the program (observed: `NamedQubit(p[Register('r', 2)], p, Register('r', 2))`); the model
-answers `UnmodelledName:qubit-name` (it does not compute the `str()` of an object), which is an `Err.other`. So on the
-real code this is not a wrong exception class but an accepted non-integer index (C14), and at model level it is the
-only `.other` left that parser-produced input can reach, as far as the differential test shows (23 000 cases per run:
-no `TypeError` / `ValueError` / `AttributeError` / `IndexError` from any program text).
+* **`C16_builder_total`**: `ParserSx e → build cfg e = .error err → Good err`, for every configuration (any injected
+  gate set, autoload on or off, any import function), where `ParserSx` (in `Lemmas/BuilderTotal.lean`) is the exact
+  shape of what `parse_to_sexpression` returns: `["circuit", child…]`, each child a header statement (`register`, `let`,
+  the three `map` forms, `usepulses`) or a body statement (gate, loop, sequential / parallel / subcircuit block, branch,
+  macro) with the argument shapes of the grammar.
+* `C16_parseBuild_total`: the same for `parse_jaqal_string`'s build + "too many registers" check.
+* The bridge to the parser model (`Derives ts sx → ParserSx (ofSx sx)`, hence `parseText txt = .ok sx → …`) is in
+  `Props/C16ParseBuild.lean`.
 
-## What a proof needs (none of it is hard, all of it is long)
-1. a typing invariant for context values (`register` sizes are ints or integer constants, alias sources are registers,
-   slice bounds are ints or integer constants, …) kept by `valStep` — the analogue of `ValOK` in `BuilderRefs.lean` —
-   so that `regSize`, `pyIntOfSize`, `pyLt`, `pyLe`, `pyRangeArg` never see a value of the wrong Python type;
-2. fuel sufficiency (`e.depth ≤ fuel →` no `Err.hang`), an induction like `buildVal_fuel`;
-3. `callDef`: after the count check every parameter name is bound, so `validateAll` never answers `KeyError`
-   (a pigeonhole argument on `odSet`);
-4. `rebuildStmt`: the `AttributeError` branch is unreachable because a gate statement whose name is bound to a macro
-   was built from that macro (`GKnown` / `KInv` of `BuilderNames.lean`);
-5. a traversal of `anyStep` with these, using that on `ParserSx` input every arity is right and every block member is
-   built to a statement.
+How it is proved (`Lemmas/BuilderTotal.lean`): a typing invariant for the values of the context (`ValT` / `RegT`:
+register sizes and slice bounds are ints or integer constants, alias sources are registers, qubit indices are ints
+or integer constants) kept by every header statement (`valStep_header`), under which `reg.size`, `int(size)` and the
+comparisons of `Register.__init__` / `NamedQubit.__init__` never see a value of the wrong Python type
+(`qubitCheck_total`, `sliceCheck_total`, `getItem_total`); `callDef_total`: after the count check every parameter is
+bound (a pigeonhole argument), so `validateAll` never answers `KeyError`; `rebuildStmt_total`: the `AttributeError`
+branch of `rebuild_macro_in_context` is unreachable because a statement whose name is bound to a macro was built from
+that macro (`StmtKnown`); `buildAny_total`: one traversal of `anyStep` on the statement shapes, with fuel sufficiency
+(`e.depth ≤ fuel`) built into the induction; `circuitLoop_total`: the loop of `build_circuit` with the invariants of
+C14 (`AccOK`, `GInv`) and the typing of the header context.
 -/
 namespace Jaqal.Builder
 open Jaqal
 
-/-- the error classes C16 allows the builder: `JaqalError`, and the `ImportError` of a `usepulses` load -/
-def Good (e : Err) : Prop := (∃ r, e = .jaqal r) ∨ e = .importErr
-
-/-! ## The shapes `parse_to_sexpression` returns -/
-
-def isStr : BSx → Bool
-  | .str _ => true
-  | _ => false
-
-/-- `let_or_int`: an integer literal or an identifier -/
-def isIntOrId : BSx → Bool
-  | .int _ => true
-  | .str _ => true
-  | _ => false
-
-/-- a slice bound: `let_or_int` or `None` -/
-def isBound : BSx → Bool
-  | .none => true
-  | e => isIntOrId e
-
-/-- `gate_arg`: identifier, number, or `("array_item", name, let_or_int)` -/
-def isGateArg : BSx → Bool
-  | .str _ => true
-  | .int _ => true
-  | .flt _ => true
-  | .list [.str "array_item", .str _, idx] => isIntOrId idx
-  | _ => false
-
-mutual
-/-- a statement inside a block: gate, loop, sequential / parallel / subcircuit block, branch -/
-def isPStmt : BSx → Bool
-  | .list (.str cmd :: args) =>
-    if cmd = "gate" then
-      match args with
-      | .str _ :: gargs => gargs.all isGateArg
-      | _ => false
-    else if cmd = "loop" then
-      match args with
-      | [count, block] => isIntOrId count && isPStmt block
-      | _ => false
-    else if cmd = "sequential_block" ∨ cmd = "parallel_block" then isPStmts args
-    else if cmd = "subcircuit_block" then
-      match args with
-      | count :: stmts => (isIntOrId count) && isPStmts stmts
-      | [] => false
-    else if cmd = "branch" then isPCases args
-    else false
-  | _ => false
-def isPStmts : List BSx → Bool
-  | [] => true
-  | s :: ss => isPStmt s && isPStmts ss
-/-- `["case", int, block]` -/
-def isPCases : List BSx → Bool
-  | [] => true
-  | .list [.str "case", .int _, block] :: cs => isPStmt block && isPCases cs
-  | _ :: _ => false
-end
-
-/-- a header statement -/
-def isPHeader : BSx → Bool
-  | .list [.str "register", .str _, size] => isIntOrId size
-  | .list [.str "let", .str _, .int _] => true
-  | .list [.str "let", .str _, .flt _] => true
-  | .list [.str "map", .str _, .str _] => true
-  | .list [.str "map", .str _, .str _, idx] => isIntOrId idx
-  | .list [.str "map", .str _, .str _, a, b, c] => isBound a && isBound b && isBound c
-  | .list [.str "usepulses", .str _, .str "*"] => true
-  | _ => false
-
-/-- a body statement at top level: a statement or a macro definition `["macro", name, param…, block]` -/
-def isPBody : BSx → Bool
-  | .list (.str "macro" :: .str n :: rest) =>
-    (rest.dropLast.all isStr) &&
-      (match rest.getLast? with
-       | some (.list (.str "sequential_block" :: stmts)) => isPStmts stmts
-       | _ => false)
-  | e => isPStmt e
-
-/-- exactly the S-expressions the parser produces: `["circuit", header…, body…]` -/
-def ParserSx (e : BSx) : Prop :=
-  ∃ hdr body, e = .list (.str "circuit" :: (hdr ++ body)) ∧ (∀ c ∈ hdr, isPHeader c = true) ∧
-    (∀ c ∈ body, isPBody c = true)
-
-/-- The full statement of the builder part of C16. NOT proved; false for the model on the residual case below. -/
-def C16_builder_total_full : Prop :=
-  ∀ (cfg : Config) (e : BSx), ParserSx e → ∀ err, build cfg e = .error err → Good err
-
-/-! ## Leaf facts (unconditional) -/
-
-theorem mkRegister_err {n : String} {size : Val} {e : Err} (h : mkRegister n size = .error e) : Good e := by
-  unfold mkRegister at h
-  split at h
-  · cases h; exact Or.inl ⟨_, rfl⟩
-  · split at h
-    · cases h; exact Or.inl ⟨_, rfl⟩
-    · cases h
-  · split at h
-    · cases h; exact Or.inl ⟨_, rfl⟩
-    · cases h
-  · split at h
-    · cases h; exact Or.inl ⟨_, rfl⟩
-    · split at h
-      · cases h; exact Or.inl ⟨_, rfl⟩
+/-- **C16 (builder).** -/
+theorem C16_builder_total (cfg : Config) (e : BSx) (hp : ParserSx e) : ∀ err, build cfg e = .error err → Good err := by
+  obtain ⟨cs, rfl, hcs⟩ := hp
+  show Total (build cfg (.list (.str "circuit" :: cs)))
+  unfold build buildWith
+  refine Total.bind ?_ (fun inject hinj => ?_)
+  · -- `normalize_native_gates`
+    unfold Config.inject
+    cases cfg.natives with
+    | none => exact Total.pure _
+    | some gs =>
+      simp only []
+      refine Total.bind ?_ (fun _ _ => Total.pure _)
+      intro e h
+      unfold normNatives at h
+      simp only [] at h
+      split at h
+      · cases h; exact Good.jaqal _
       · cases h
+  · unfold buildCore
+    simp only []
+    refine Total.bind ?_ (fun _ _ => Total.pure _)
+    have hnat : NatOK (inject.getD []) := by
+      unfold Config.inject at hinj
+      cases hn : cfg.natives with
+      | none => simp [hn, pure, Except.pure] at hinj; subst hinj; exact ⟨fun p hp => (by cases hp), by simp⟩
+      | some gs =>
+        simp only [hn] at hinj
+        obtain ⟨d, hd, h4⟩ := bind_ok hinj
+        simp only [pure, Except.pure] at h4
+        cases h4
+        exact normNatives_natOK hd
+    refine circuitLoop_total (by decide) cs _ ?_ ?_
+    · refine ⟨?_, ?_, ?_⟩
+      · intro n v h; simp [Ctx.get] at h
+      · refine ⟨?_, ?_, ?_, ?_, ?_⟩
+        · intro n v hg; simp [Ctx.get] at hg
+        · intro k s hk; cases hk
+        · intro v hv; cases hv
+        · trivial
+        · intro m hm; cases hm
+      · refine ⟨HInv.toBInv ?_, fun _ _ => ?_⟩ <;> exact ⟨rfl, rfl, rfl, rfl, hnat⟩
+    · intro c hc
+      refine ⟨hcs c hc, ?_⟩
+      simp only [BSx.depth, BSx.depthList]
+      have := depth_le_of_mem hc
+      omega
 
-theorem mkConstant_err {n : String} {v : BSx} {e : Err} (h : mkConstant n v = .error e) : Good e := by
-  cases v with
-  | val w => cases w <;> simp [mkConstant, throw_eq, pure, Except.pure] at h <;> exact Or.inl ⟨_, h.symm⟩
-  | _ => simp [mkConstant, throw_eq, pure, Except.pure] at h <;> exact Or.inl ⟨_, h.symm⟩
-
-theorem validateCount_err {v : Val} {e : Err} (h : validateCount v = .error e) : Good e := by
-  unfold validateCount at h
-  split at h
-  · cases h; exact Or.inl ⟨_, rfl⟩
-  · split at h
-    · cases h; exact Or.inl ⟨_, rfl⟩
-    · cases h
-
-theorem addVar_err {ctx : Ctx} {n : String} {v : Val} {e : Err} (h : addVar ctx n v = .error e) : Good e := by
-  unfold addVar at h
-  split at h
-  · cases h; exact Or.inl ⟨_, rfl⟩
-  · cases h
-
-theorem lookupId_err {ctx : Ctx} {s : String} {e : Err} (h : lookupId ctx s = .error e) : Good e := by
-  unfold lookupId at h
-  split at h
-  · cases h
-  · cases h; exact Or.inl ⟨_, rfl⟩
-
-theorem normNatives_err {gs : List GateDef} {e : Err} (h : normNatives gs = .error e) : Good e := by
-  unfold normNatives at h
-  simp only [] at h
-  split at h
-  · cases h; exact Or.inl ⟨_, rfl⟩
-  · cases h
-
-/-- the "too many registers" check only raises JaqalError -/
-theorem tooManyRegisters_err {c : Circuit} {e : Err} (h : tooManyRegisters c = .error e) : Good e := by
+/-- `parse_jaqal_string` (no pass requested): build, then the "too many registers" check -/
+theorem C16_parseBuild_total (cfg : Config) (sx : Sx) (hp : ParserSx (BSx.ofSx sx)) :
+    ∀ err, parseBuild cfg sx = .error err → Good err := by
+  show Total (parseBuild cfg sx)
+  unfold parseBuild
+  refine Total.bind (C16_builder_total cfg _ hp) (fun c _ => ?_)
+  intro e h
   unfold tooManyRegisters at h
   split at h
-  · cases h; exact Or.inl ⟨_, rfl⟩
+  · cases h; exact Good.jaqal _
   · cases h
+
+/-- a good error is neither a foreign exception class nor non-termination -/
+theorem Good.not_other {e : Err} (h : Good e) : (∀ c, e ≠ .other c) ∧ e ≠ .hang := by
+  rcases h with ⟨r, rfl⟩ | rfl <;> exact ⟨fun c hc => (by cases hc), fun hc => (by cases hc)⟩
+
+/-! ## Non-vacuity: programs with every kind of statement, accepted and rejected -/
+
+/-- `from a usepulses *; let n 2; register r[4]; map a r[0:n]; map q r[3]; macro m x y { X x; < X y | X q > }; m a[0] a[1];
+loop n { subcircuit { X q } }; branch { '1' : { X q } }` -/
+def progAll : BSx :=
+  .list [.str "circuit", .list [.str "usepulses", .str "a", .str "*"], .list [.str "let", .str "n", .int 2],
+    .list [.str "register", .str "r", .int 4], .list [.str "map", .str "a", .str "r", .int 0, .str "n", .none],
+    .list [.str "map", .str "q", .str "r", .int 3],
+    .list [.str "macro", .str "m", .str "x", .str "y", .list [.str "sequential_block",
+      .list [.str "gate", .str "X", .str "x"],
+      .list [.str "parallel_block", .list [.str "gate", .str "X", .str "y"], .list [.str "gate", .str "X", .str "q"]]]],
+    .list [.str "gate", .str "m", .list [.str "array_item", .str "a", .int 0], .list [.str "array_item", .str "a", .int 1]],
+    .list [.str "loop", .str "n", .list [.str "sequential_block",
+      .list [.str "subcircuit_block", .str "", .list [.str "gate", .str "X", .str "q"]]]],
+    .list [.str "branch", .list [.str "case", .int 1, .list [.str "sequential_block", .list [.str "gate", .str "X", .str "q"]]]]]
+
+example : ParserSx progAll := ⟨_, rfl, by decide⟩
+
+/-- it is rejected (branches are experimental) — with a JaqalError, as the theorem says -/
+example : (match build {} progAll with | .error (.jaqal _) => true | _ => false) = true := by decide +kernel
 
 end Jaqal.Builder
 
+#print axioms Jaqal.Builder.C16_builder_total
+#print axioms Jaqal.Builder.C16_parseBuild_total
